@@ -2,7 +2,7 @@
    meas_rot (the rotation gates per Pauli) comes from QPG.measrot, regenerated from /repo. *)
 From Coq Require Import ZArith NArith List Bool Permutation.
 From QP Require Import Cx Apply Gates.
-From QPM Require Import Pauli CompBasis Measure Grouping.
+From QPM Require Import Pauli CompBasis Measure Grouping Reconstruct.
 From QPG Require Import measrot.
 Import ListNotations.
 
@@ -47,6 +47,15 @@ Print Assumptions group_members_commute_qubitwise.
 Theorem z_string_eigenvalue :
   forall i psi b, lsem (psem (i, PZ)) psi b = Cmul (if b i then Copp C1 else C1) (psi b).
 Proof. exact Z_act. Qed.
+
+(* ... and the reconstructor (parity of the outcome word on the support mask, for words and qubit
+   indices of any size) is exactly the product of those per-qubit eigenvalues *)
+Theorem reconstructor_is_product_of_z_eigenvalues :
+  forall l bits, NoDup (keys l) ->
+  reconstruct l bits
+  = fold_right (fun ip a => ((if N.testbit bits (N.of_nat (fst ip)) then (-1) else 1) * a)%Z) 1%Z l.
+Proof. exact reconstruct_is_eigenvalue_product. Qed.
+Print Assumptions reconstructor_is_product_of_z_eigenvalues.
 
 Example c07_example :
   map members (grouping [[(0%nat, PX); (1%nat, PY)]; [(0%nat, PZ)]; [(1%nat, PY); (2%nat, PZ)]; [(0%nat, PZ); (2%nat, PX)]])
